@@ -211,6 +211,9 @@ package xmpp
 // C07: the table of pending IQ requests is shared between SendIQ callers, the receive path and the clean-up
 // goroutines. It is only touched with IQResultRouteLock held; taking the lock forgets its content (other goroutines may
 // have changed it) and gives back the lock invariant; every access is a ghost event (DESIGN.md 2.7).
+//@ event ChanSend(ch Ref)
+//@ event ChanSend_IQ(ch Ref, v stanza.IQ)
+//@ event Close(ch Ref)
 //@ event MapGet_IQResultRoutes(o Ref, k Str, found Bool, v *xmpp.IQResultRoute)
 //@ event MapSet_IQResultRoutes(o Ref, k Str, v *xmpp.IQResultRoute)
 //@ event MapDel_IQResultRoutes(o Ref, k Str, had Bool, v *xmpp.IQResultRoute)
@@ -444,7 +447,7 @@ package xmpp
 //
 //@ event StreamErrRead(pk Iface)
 //@ event Spawn_route(r Ref, s Iface, p Iface)
-//@ pred recvOK(c) := clientOK(c) && c.Session != nil && c.transport != nil && c.router != nil && wfRouter(c.router) && pendingWf(c.router) && c.ErrorHandler != nil
+//@ pred recvOK(c) := clientOK(c) && c.Session != nil && c.transport != nil && c.router != nil && wfRouter(c.router) && c.router.IQResultRoutes != nil && lockFree(c.router) && c.ErrorHandler != nil
 //@ pred reads(n)  := count(PacketRead) - old(count(PacketRead)) == n
 //@ pred newReads() := count(PacketRead) - old(count(PacketRead))
 //@ pred newSpawns() := count(Spawn_route) - old(count(Spawn_route))
@@ -460,14 +463,15 @@ package xmpp
 //@   ensures [C12.event] (!(newSpawns() + 1 == newReads() && typeof(last(PacketRead)) == stanza.StreamClosePacket) && c.Handler != nil) ==> count(EventHandler) - old(count(EventHandler)) == count(StreamErrRead) - old(count(StreamErrRead)) + 1 && last(EventHandler).State.state == StateDisconnected && last(EventHandler).SMState == c.Session.SMState && atlast(ErrorHandler) < atlast(EventHandler)
 //@   assigns c.Session.SMState.Inbound, c.Session.SMState.UnAckQueue.Uslice, c.CurrentState.state
 //@   elems c.Session.SMState.UnAckQueue.Uslice, c.router.IQResultRoutes
-//@   emits PacketRead, StanzaRead, AckReqRead, StreamErrRead, AnswerSent, Send, SendAttrs, Write, Spawn_route, Spawn, ErrorHandler, EventHandler, Close, HandlePacket, SendRaw, ChanSend
+//@   emits PacketRead, StanzaRead, AckReqRead, StreamErrRead, AnswerSent, Send, SendAttrs, Write, Spawn_route, Spawn, ErrorHandler, EventHandler, Close, HandlePacket, SendRaw, ChanSend, ChanSend_IQ, MapGet_IQResultRoutes, MapDel_IQResultRoutes
+//@   assigns locked(addr(c.router.IQResultRouteLock)), rlocked(addr(c.router.IQResultRouteLock))
 //@   at call Send assert [C09.h] typeof($packet) == stanza.SMAnswer && $packet.(stanza.SMAnswer).H == c.Session.SMState.Inbound
 //@   loop 1:
 //@     invariant c != nil && c.config != nil && c.config == old(c.config) && c.Session != nil && c.Session == old(c.Session) && c.transport != nil && c.router != nil && c.router == old(c.router) && c.ErrorHandler != nil && c.Handler == old(c.Handler)
 //@     invariant c.router.IQResultRoutes == old(c.router.IQResultRoutes) && cQueue(c) == old(cQueue(c))
 //@     invariant wfQueue(cQueue(c))
 //@     invariant wfRouter(c.router)
-//@     invariant pendingWf(c.router)
+//@     invariant c.router.IQResultRoutes != nil && lockFree(c.router)
 //@     invariant cQueue(c) != nil ==> (base(cQueue(c).Uslice) == old(base(cQueue(c).Uslice)) || fresh(cQueue(c).Uslice))
 //@     invariant [C05.once]  newSpawns() == newReads() && newReads() >= 0
 //@     invariant [C05.same]  forall(j, 0, newSpawns(), arg(Spawn_route, old(count(Spawn_route)) + j, 2) == arg(PacketRead, old(count(PacketRead)) + j) && arg(Spawn_route, old(count(Spawn_route)) + j, 1) == iface(c))
@@ -579,14 +583,15 @@ package xmpp
 //@   emits WsWrite
 //
 //@ event Routed(s Iface, p Iface)
-//@ pred compOK(c) := c != nil && c.transport != nil && c.router != nil && wfRouter(c.router) && pendingWf(c.router) && c.ErrorHandler != nil
+//@ pred compOK(c) := c != nil && c.transport != nil && c.router != nil && wfRouter(c.router) && c.router.IQResultRoutes != nil && lockFree(c.router) && c.ErrorHandler != nil
 //@ func (*xmpp.Component).recv(c)
 //@   requires compOK(c)
 //@   ensures [C05.comp.once]  count(Routed) - old(count(Routed)) == newReads() + (count(StreamErrRead) - old(count(StreamErrRead))) || (count(Routed) - old(count(Routed)) + 1 == newReads() + (count(StreamErrRead) - old(count(StreamErrRead))) && typeof(last(PacketRead)) == stanza.StreamClosePacket)
 //@   ensures [C05.comp.error] !(newReads() > 0 && typeof(last(PacketRead)) == stanza.StreamClosePacket && count(Routed) - old(count(Routed)) + 1 == newReads() + (count(StreamErrRead) - old(count(StreamErrRead)))) ==> count(ErrorHandler) - old(count(ErrorHandler)) == count(StreamErrRead) - old(count(StreamErrRead)) + 1 && c.CurrentState.state == StateDisconnected
 //@   assigns c.CurrentState.state
 //@   elems c.router.IQResultRoutes
-//@   emits PacketRead, StanzaRead, AckReqRead, StreamErrRead, TokenRead, Routed, HandlePacket, Send, SendAttrs, SendRaw, Write, ChanSend, Close, ErrorHandler, EventHandler
+//@   emits PacketRead, StanzaRead, AckReqRead, StreamErrRead, TokenRead, Routed, HandlePacket, Send, SendAttrs, SendRaw, Write, ChanSend, Close, ErrorHandler, EventHandler, ChanSend_IQ, MapGet_IQResultRoutes, MapDel_IQResultRoutes
+//@   assigns locked(addr(c.router.IQResultRouteLock)), rlocked(addr(c.router.IQResultRouteLock))
 //@   loop 1:
 //@     invariant compOK(c) && c.router == old(c.router) && c.router.IQResultRoutes == old(c.router.IQResultRoutes) && c.Handler == old(c.Handler)
 //@     invariant [C05.comp.once]  count(Routed) - old(count(Routed)) == newReads() + (count(StreamErrRead) - old(count(StreamErrRead))) && newReads() >= 0
